@@ -64,6 +64,10 @@ def macros(quick):
     ms += [('IF_SOME', (PUSH(INT, i(1)), ('ADD',)), (PUSH(INT, i(-5)),)), ('IF_RIGHT', (('SIZE',), ('INT',)), ())]
     for n in range(2, 5 if quick else 6):
         ms += [('DIIP', n, (PUSH(INT, i(9)),)), ('DIIP', n, (DROP(1),)), ('DUUP', n)]
+    # code arguments holding a literal that is a sequence of sequences: an expansion arranges instructions and must leave data alone
+    LL = LIST(LIST(INT))
+    ms += [('DIIP', 2, (PUSH(LL, lst(lst(), lst())),)), ('DIIP', 3, (PUSH(LL, lst(lst(i(1), i(2)), lst(i(3)))), ('SIZE',))),
+           ('IF_SOME', (DROP(1), PUSH(LL, lst(lst(), lst())), ('SIZE',), ('INT',)), (PUSH(INT, i(-5)),))]
     for n in range(2, 6 if quick else 7):
         for t in trees(n):
             ms += [('PAIR', t), ('UNPAIR', t)]
